@@ -1,5 +1,6 @@
 import Drive.Util
 import RV.Model.Buffer
+import RV.Proofs.BufferFast
 /-!
 Trace validator for the `buffer` stream (C11).
 
@@ -98,7 +99,8 @@ def checkSort (b : Buf) (lname : String) (start end_ : Nat) (res : String) (obs 
   match lessOf lname with
   | none => .error s!"unknown comparison function {lname}"
   | some less =>
-    match sortSliceBetween insertionSort less b start end_ with
+    -- `sortSliceBetweenFast = sortSliceBetween` is the theorem `RV.C11.validator_runs_the_model`
+    match sortSliceBetweenFast insertionSort less b start end_ with
     | .error f =>
       if faultName f == res then .ok ({ b := some b }, 1)
       else .error s!"sort: implementation {res}, model {faultName f}"
